@@ -432,9 +432,10 @@ func (a *Array) Example(r *ExampleGenerator) any {
 // builtin type if possible. The idea is to avoid generating []any and
 // produce more precise types.
 func (a *Array) MakeSlice(s []any) any {
-	slice := reflect.MakeSlice(toReflectType(a), 0, len(s))
+	t := toReflectType(a)
+	slice := reflect.MakeSlice(t, 0, len(s))
 	for _, item := range s {
-		slice = reflect.Append(slice, reflect.ValueOf(item))
+		slice = reflect.Append(slice, toReflectValue(item, t.Elem()))
 	}
 	return slice.Interface()
 }
@@ -600,7 +601,8 @@ func (m *Map) Example(r *ExampleGenerator) any {
 // if possible. The idea is to avoid generating map[any]any,
 // which cannot be handled by json.Marshal.
 func (m *Map) MakeMap(raw map[any]any) any {
-	ma := reflect.MakeMap(toReflectType(m))
+	t := toReflectType(m)
+	ma := reflect.MakeMap(t)
 	keys := make([]any, 0, len(raw))
 	for key := range raw {
 		keys = append(keys, key)
@@ -609,7 +611,7 @@ func (m *Map) MakeMap(raw map[any]any) any {
 		return reflect.ValueOf(keys[i]).String() < reflect.ValueOf(keys[j]).String()
 	})
 	for _, key := range keys {
-		ma.SetMapIndex(reflect.ValueOf(key), reflect.ValueOf(raw[key]))
+		ma.SetMapIndex(toReflectValue(key, t.Key()), toReflectValue(raw[key], t.Elem()))
 	}
 	return ma.Interface()
 }
@@ -684,6 +686,26 @@ func QualifiedTypeName(t DataType) string {
 		)
 	}
 	return t.Name()
+}
+
+// toReflectValue returns the reflect value of v suitable for storing in a
+// slice or map whose element type is t. Values given in the design (enum
+// values, examples) only need to be compatible with the attribute type, e.g.
+// the int 1 for a UInt or Float64 attribute or a string for a Bytes attribute:
+// such values are converted to t so that they can be stored.
+func toReflectValue(v any, t reflect.Type) reflect.Value {
+	rv := reflect.ValueOf(v)
+	if !rv.IsValid() {
+		return reflect.Zero(t)
+	}
+	vt := rv.Type()
+	if vt.AssignableTo(t) {
+		return rv
+	}
+	if vt.ConvertibleTo(t) && (t.Kind() != reflect.String || vt.Kind() == reflect.String) {
+		return rv.Convert(t)
+	}
+	return rv
 }
 
 // toReflectType converts the DataType to reflect.Type.
